@@ -472,7 +472,7 @@ func main() {
 		}
 		execdrv.Boot(*scratch)
 		w := &evmWorld{st: execdrv.FreshState(), src: execdrv.Funded[0]}
-		limit, _ := new(big.Int).SetString("400000000000000000000000000", 10) // what the funded sender can pay
+		limit, _ := new(big.Int).SetString("20000000000000000000000000", 10) // 2e25: the funded sender (1e27) can pay every case of a run
 		var amounts []*big.Int
 		for _, c := range cases {
 			if c.Op == "num" && !c.Neg {
